@@ -3,10 +3,22 @@
    Session/InputProofs, InputProofs2, InputProofs3, InputProofs4.
    All statements are about the functions that are extracted and run against the library
    (Session/InputDefs.v: run, step, process, handle, handle_client, the parse and apply
-   functions), for every choice of the extended-clipboard handler [ext_cut] (C18 instantiates it). *)
+   functions), for every choice of the extended-clipboard handler [ext_cut] (C18 instantiates it).
+
+   SCOPE.  The input sources of this model are the RFB connections of the client list served by
+   rfbProcessClientMessage (plain sockets; the check also drives the WebSocket transport) and the
+   deferred-pointer flush of rfbUpdateClient.  The library has a THIRD source that is NOT modelled and
+   for which nothing is proved here: rfbProcessUDPInput (rfbserver.c:4246) hands every datagram
+   received on screen->udpSock to kbdAddEvent / ptrAddEvent without any test of protocol state,
+   viewOnly, pointerClient or scale (since 93b245e: nothing at all on a screen that requires a
+   password).  It is only active when the application sets screen->udpPort (default 0, no
+   command-line option sets it); every theorem below is about a server with udpPort = 0 (the UDP
+   source is exercised by C05's harness, not here).  Also outside the model: clients put on hold by newClientHook
+   (RFB_CLIENT_ON_HOLD), reverse connections in the sharing test, file-transfer messages, TLS. *)
 From Coq Require Import ZArith List Bool.
 From LV Require Import Gen.Consts_C06 Wire.C2SInput Session.InputDefs Session.InputProofs
-  Session.InputProofs2 Session.InputProofs3 Session.InputProofs4 Session.InputProofs5 Session.InputProofs6.
+  Session.InputProofs2 Session.InputProofs3 Session.InputProofs4 Session.InputProofs5 Session.InputProofs6
+  Session.InputProofs7.
 Import ListNotations.
 Local Open Scope Z_scope.
 
@@ -43,8 +55,9 @@ Proof. split; [repeat constructor|vm_compute; reflexivity]. Qed.
    encodings / SetPixelFormat with an acceptable format) the pending byte stream of [c] consists
    of - however that stream is split between kernel buffer and fragments in flight - enough
    rfbProcessEvents passes call the application exactly once per input message, in order, with
-   the same key symbol / button mask / text bytes and the position mapped by [map_pos]. *)
-Theorem C06_exactly_once_in_order : forall ext_cut msgs n s c0 l1 c l2,
+   the same key symbol / button mask / text bytes and the position mapped by [map_pos].
+   (The "silent" messages also include TextChat and SetDesktopSize: [silent_kind].) *)
+Theorem C06_exactly_once_in_order_quiet_others : forall ext_cut msgs n s c0 l1 c l2,
   s_clients s = l1 ++ c :: l2 -> Forall (quiet (c_id c0)) l1 -> Forall (quiet (c_id c0)) l2 ->
   cinv c0 c -> ptr_allowed (s_owner s) (c_id c0) = true ->
   g_deferptr (s_cfg s) = 0 -> Forall wmsg_ok msgs ->
@@ -53,7 +66,7 @@ Theorem C06_exactly_once_in_order : forall ext_cut msgs n s c0 l1 c l2,
   snd (run ext_cut s (processes n)) = concat (map (expected (s_cfg s) c0) msgs).
 Proof. exact once_in_order_multi. Qed.
 
-Example C06_exactly_once_in_order_nonvacuous :
+Example C06_exactly_once_in_order_quiet_others_nonvacuous :
   let cfg := mkCfg 100 80 false 0 false false false 0 false 0 in
   let c := set_in (set_state (new_client cfg 7 false) SNormal)
                   (mkInp [4; 1] false [Frag [0; 0; 0; 0]; Frag (0 :: 97 :: enc_cut [104; 105] ++ enc_ptr 3 65535 0)]) in
@@ -75,6 +88,78 @@ Proof.
   - unfold quiet. cbn. repeat split; auto; discriminate.
 Qed.
 
+(* The general per-message statement behind it, without any assumption on the OTHER connections
+   (they only enter through the pointer owner [o] and the flag [b]): one rfbProcessClientMessage of
+   a permitted connection whose stream starts with the well-formed message [w] makes exactly the
+   callbacks [expected], consumes exactly that message, keeps the connection permitted, closes
+   nobody.  Positive delivery with competing ACTIVE connections follows by applying it to each
+   rfbProcessClientMessage in turn; [ptr_allowed] is the only interaction (C06_pointer_ownership). *)
+Theorem C06_message_delivered : forall ext_cut cfg o c0 c b w r,
+  cinv c0 c -> ptr_allowed o (c_id c0) = true -> g_deferptr cfg = 0 -> wmsg_ok w ->
+  st_bytes (c_in c) = enc_w w ++ r ->
+  let a := handle_client ext_cut cfg o c b in
+  cinv c0 (a_client a) /\ st_bytes (c_in (a_client a)) = r /\ st_eof (c_in (a_client a)) = st_eof (c_in c) /\
+  a_events a = expected cfg c0 w /\ a_close_others a = false /\ ptr_allowed (a_owner a) (c_id c0) = true.
+Proof. exact handle_client_w. Qed.
+
+Example C06_message_delivered_nonvacuous :
+  (* TextChat (open; a 2-byte text) and SetDesktopSize (one screen) are silent messages *)
+  wmsg_ok (WFixed c06_rfbTextChat ([0; 0; 0] ++ be32 c06_rfbTextChatOpen)) /\
+  wmsg_ok (WFixed c06_rfbTextChat ([0; 0; 0] ++ be32 2 ++ [104; 105])) /\
+  wmsg_ok (WFixed c06_rfbSetDesktopSize ([0; 3; 32; 2; 88; 1; 0] ++ repeat 0 16)).
+Proof.
+  split; [|split].
+  - right. left. split; [reflexivity|]. exists [0; 0; 0], c06_rfbTextChatOpen, []. repeat split; auto.
+  - right. left. split; [reflexivity|]. exists [0; 0; 0], 2, [104; 105]. split; [reflexivity|]. split; [reflexivity|].
+    right. vm_compute. repeat split; reflexivity.
+  - right. right. split; [reflexivity|]. exists [0; 3; 32; 2; 88; 1; 0], (repeat 0 16), 1.
+    vm_compute. repeat split; try reflexivity; discriminate.
+Qed.
+
+(* SetScale / PalmVNCSetScaleFactor themselves (the messages that change the mapping): no callback,
+   nobody closed, the scaled view becomes (W/n, H/n) - unless one of them would be 0, then nothing
+   changes (8e7b6f1) - and nothing else about the connection changes: the pointer events that follow
+   are mapped through the new view (C06_message_delivered with the new record as [c0]). *)
+Theorem C06_set_scale_message : forall ext_cut cfg o c b t n p1 p2 r,
+  c_state c = SNormal -> (t = c06_rfbSetScale \/ t = c06_rfbPalmVNCSetScaleFactor) -> n <> 0 ->
+  st_bytes (c_in c) = t :: n :: p1 :: p2 :: r ->
+  let a := handle_client ext_cut cfg o c b in
+  let w := g_w cfg / n in let h := g_h cfg / n in
+  a_events a = [] /\ a_owner a = o /\ a_close_others a = false /\
+  st_bytes (c_in (a_client a)) = r /\ st_eof (c_in (a_client a)) = st_eof (c_in c) /\
+  exists j, a_client a =
+    (if (negb ((w =? g_w cfg) && (h =? g_h cfg))) && ((h =? 0) || (w =? 0))
+     then set_in c j else set_scaled (set_in c j) w h).
+Proof. exact handle_client_setscale. Qed.
+
+(* the scaled view never becomes empty: every division ScaleX/ScaleY performs is by a positive
+   width / height (scale factor = one byte of the message, hence >= 0) *)
+Theorem C06_scaled_view_positive : forall ext_cut cfg o c m b,
+  0 < g_w cfg -> 0 < g_h cfg -> scaled_pos c ->
+  (forall p n, m = MSetScale p n -> 0 <= n) ->
+  scaled_pos (a_client (apply_msg ext_cut cfg o c m b)).
+Proof. exact apply_msg_scaled_pos. Qed.
+
+Theorem C06_scaled_view_positive_initially : forall cfg id vo,
+  0 < g_w cfg -> 0 < g_h cfg -> scaled_pos (new_client cfg id vo).
+Proof. exact new_client_scaled_pos. Qed.
+
+(* the same messages sent at once or in two sends with any number of passes in between (cut at a
+   message boundary; a pass that finds a message INCOMPLETE with nothing more in flight is a peer
+   stalling beyond maxClientWait: connection closed, in the model as in the library) *)
+Theorem C06_two_sends_with_passes_between : forall ext_cut msgs1 msgs2 n1 n2 s c0 l1 c l2,
+  s_clients s = l1 ++ c :: l2 -> Forall (quiet (c_id c0)) l1 -> Forall (quiet (c_id c0)) l2 ->
+  cinv c0 c -> ptr_allowed (s_owner s) (c_id c0) = true ->
+  g_deferptr (s_cfg s) = 0 -> Forall wmsg_ok msgs1 -> Forall wmsg_ok msgs2 ->
+  st_bytes (c_in c) = [] -> st_eof (c_in c) = false ->
+  (length msgs1 <= n1)%nat -> (length msgs2 <= n2)%nat ->
+  let id := c_id c0 in
+  let want := concat (map (expected (s_cfg s) c0) (msgs1 ++ msgs2)) in
+  snd (run ext_cut s (OSend id [concat (map enc_w (msgs1 ++ msgs2))] :: processes (n1 + n2))) = want /\
+  snd (run ext_cut s ((OSend id [concat (map enc_w msgs1)] :: processes n1) ++
+                      (OSend id [concat (map enc_w msgs2)] :: processes n2))) = want.
+Proof. exact two_sends_with_passes_between. Qed.
+
 (* the position handed to ptrAddEvent: unchanged for an unscaled client ... *)
 Theorem C06_pointer_position_unscaled : forall cfg c x y,
   c_sw c = g_w cfg -> c_sh c = g_h cfg -> map_pos cfg c x y = Some (x, y).
@@ -86,6 +171,24 @@ Proof. exact map_pos_unscaled. Qed.
 Theorem C06_pointer_unscale : forall cfg x fw tw, fix_scale cfg = true -> 0 < fw ->
   scale_v cfg x fw tw = Some (x * tw / fw).
 Proof. exact scale_v_fixed. Qed.
+
+(* ... and that integer quotient IS what the C expression (int)(((double)x * (double)to) / (double)from)
+   evaluates to in IEEE binary64 (round to nearest even), for all operands below 2^16 - i.e. every
+   16-bit wire coordinate and every screen dimension: [scale_m] emulates the double arithmetic exactly
+   over Z ([fdiv53]: correctly rounded quotient m / 2^e, 2^52 <= m <= 2^53; the product is exact) *)
+Theorem C06_pointer_unscale_binary64 : forall x fw tw,
+  0 <= x < 65536 -> 0 < fw < 65536 -> 0 <= tw < 65536 ->
+  scale_m x fw tw = Some (x * tw / fw).
+Proof. exact scale_m_exact. Qed.
+
+Theorem C06_pointer_unscale_model_is_binary64 : forall cfg x fw tw, fix_scale cfg = true ->
+  0 <= x < 65536 -> 0 < fw < 65536 -> 0 <= tw < 65536 ->
+  scale_v cfg x fw tw = scale_m x fw tw.
+Proof. exact scale_v_is_binary64. Qed.
+
+Example C06_pointer_unscale_binary64_nonvacuous :
+  scale_m 29 100 200 = Some 58 /\ scale_m 65535 3 65535 = Some 1431612075 /\ scale_d 29 100 200 = Some 57.
+Proof. vm_compute. repeat split; reflexivity. Qed.
 
 Example C06_pointer_unscale_nonvacuous :
   let cfg := mkCfg 200 100 false 0 false false false 0 false 0 in
@@ -132,19 +235,55 @@ Proof. vm_compute. repeat split; reflexivity. Qed.
    once each, in list order, with the closing / sharing side effects of the others in between):
    a callback is caused by a message of a connection that was open, in RFB_NORMAL and not
    view-only when the pass STARTED - or it is the flush of a remembered pointer position
-   (coalescing on) of a connection that is not view-only. *)
+   (coalescing on): then it is a pointer callback attributed to a connection [c0] that IS in the
+   server's list when the pass starts and is NOT view-only at that moment (the flag is never cleared
+   by a handler, so "not view-only when flushed" implies "not view-only at the start"). *)
 Theorem C06_gating_pass : forall ext_cut,
   (forall k p, snd (fst (ext_cut true k p)) = []) ->
   forall s e, NoDup (map c_id (s_clients s)) ->
   In e (snd (process ext_cut s)) ->
   (exists c, find_client (s_clients s) (ev_client e) = Some c /\ c_closed c = false /\
              c_state c = SNormal /\ c_viewonly c = false) \/
-  (exists c, c_viewonly c = false /\ 0 <= p_lastx (c_ptr c) /\
-             e = EvPtr (c_id c) (p_lastbtn (c_ptr c)) (p_lastx (c_ptr c)) (p_lasty (c_ptr c))).
-Proof. exact process_gate. Qed.
+  (exists c0, find_client (s_clients s) (ev_client e) = Some c0 /\ c_viewonly c0 = false /\
+              exists mask x y, e = EvPtr (c_id c0) mask x y /\ 0 <= x).
+Proof. exact process_gate_tied. Qed.
 
-(* the only other source of callbacks, the deferred-pointer flush of rfbUpdateClient, never
-   serves a view-only connection *)
+Example C06_gating_pass_nonvacuous :
+  (* connection 7 (view-only, remembered position) and 8 (permitted, remembered position, timer
+     expired): the pass flushes only 8's *)
+  let cfg := mkCfg 100 80 false 0 false false false 50 false 0 in
+  let mk id vo := set_ptr (set_state (new_client cfg id vo) SNormal) (mkPtr 1 10 20 1 500) in
+  snd (process ext_cut_off (mkSrv cfg [mk 7 true; mk 8 false] None 9000)) = [EvPtr 8 1 10 20].
+Proof. vm_compute. reflexivity. Qed.
+
+(* its hypothesis is an invariant: every script whose OConnect ids are new (pairwise distinct, not
+   in use at the start - the harness numbers connections consecutively) keeps the ids distinct *)
+Theorem C06_distinct_ids_invariant : forall ext_cut ops s,
+  NoDup (connect_ids ops ++ ids s) -> NoDup (ids (fst (run ext_cut s ops))).
+Proof. exact run_nodup. Qed.
+
+(* ---- view-only ---------------------------------------------------------------------------
+   by password position: a response made with password number k of the list makes the connection
+   view-only iff k >= authPasswdFirstViewOnly (rfbCheckPasswordByList, main.c:852) ... *)
+Theorem C06_viewonly_by_password : forall cfg o c r b k,
+  c_authres c = Some k ->
+  let a := apply_handshake cfg o c (HAuthResp r) b in
+  c_state (a_client a) = SInit /\ c_closed (a_client a) = c_closed c /\
+  c_viewonly (a_client a) = (if g_firstvo cfg <=? k then true else c_viewonly c).
+Proof. exact authresp_viewonly. Qed.
+
+(* ... and no rfbProcessClientMessage ever clears the flag (only the application does: OViewOnly) *)
+Theorem C06_viewonly_never_cleared : forall ext_cut cfg o c b,
+  c_viewonly c = true -> c_viewonly (a_client (handle_client ext_cut cfg o c b)) = true.
+Proof. exact handle_client_vo. Qed.
+
+Theorem C06_viewonly_kept_pass : forall ext_cut s id c0 c1, NoDup (map c_id (s_clients s)) ->
+  find_client (s_clients s) id = Some c0 -> c_viewonly c0 = true ->
+  find_client (s_clients (fst (process ext_cut s))) id = Some c1 -> c_viewonly c1 = true.
+Proof. exact process_viewonly_kept. Qed.
+
+(* the only other source of callbacks IN THIS MODEL (see SCOPE: rfbProcessUDPInput is not modelled),
+   the deferred-pointer flush of rfbUpdateClient, never serves a view-only connection *)
 Theorem C06_gating_flush : forall cfg now c e,
   In e (snd (flush_ptr cfg now c)) ->
   c_viewonly c = false /\ 0 <= p_lastx (c_ptr c) /\
@@ -239,6 +378,39 @@ Theorem C06_ptr_coalescing_flush : forall cfg now c,
   snd (flush_ptr cfg now c) = [EvPtr (c_id c) (p_lastbtn (c_ptr c)) (p_lastx (c_ptr c)) (p_lasty (c_ptr c))] /\
   p_lastx (c_ptr (fst (flush_ptr cfg now c))) = -1.
 Proof. exact defer_flush. Qed.
+
+(* liveness: the first rfbUpdateClient that finds a remembered position and no running timer starts
+   the timer (establishing the hypothesis p_defusec <> 0 above) and delivers nothing ... *)
+Theorem C06_ptr_coalescing_timer_starts : forall cfg now c,
+  c_viewonly c = false -> 0 <= p_lastx (c_ptr c) -> p_defusec (c_ptr c) = 0 -> 0 <= now ->
+  let c' := fst (flush_ptr cfg now c) in
+  snd (flush_ptr cfg now c) = [] /\
+  p_lastbtn (c_ptr c') = p_lastbtn (c_ptr c) /\ p_lastx (c_ptr c') = p_lastx (c_ptr c) /\
+  p_lasty (c_ptr c') = p_lasty (c_ptr c) /\ c_viewonly c' = false /\ c_id c' = c_id c /\
+  0 < p_defusec (c_ptr c') < 1000000 /\ timer_ok now c' /\ set_ptr c' (c_ptr c) = c.
+Proof. exact defer_timer_starts. Qed.
+
+(* ... and remembered => delivered: two visits more than deferPtrUpdateTime + 1 ms apart deliver the
+   remembered mask and position exactly once, whether or not the timer was already running *)
+Theorem C06_ptr_coalescing_delivered : forall cfg now t c,
+  c_viewonly c = false -> 0 <= p_lastx (c_ptr c) -> timer_ok now c ->
+  0 <= now -> 0 <= g_deferptr cfg -> g_deferptr cfg + 2 <= t ->
+  let '(c1, e1) := flush_ptr cfg now c in
+  let '(c2, e2) := flush_ptr cfg (now + t) c1 in
+  e1 ++ e2 = [EvPtr (c_id c) (p_lastbtn (c_ptr c)) (p_lastx (c_ptr c)) (p_lasty (c_ptr c))] /\
+  p_lastx (c_ptr c2) = -1 /\ c_id c2 = c_id c /\ c_viewonly c2 = false.
+Proof. exact defer_eventually. Qed.
+
+(* the same at run level: rfbProcessEvents, time passes, rfbProcessEvents - any number of other
+   (quiet) connections present *)
+Theorem C06_ptr_coalescing_delivered_run : forall ext_cut s l1 c l2 t,
+  s_clients s = l1 ++ c :: l2 -> Forall (quiet (c_id c)) l1 -> Forall (quiet (c_id c)) l2 ->
+  c_closed c = false -> st_bytes (c_in c) = [] -> st_eof (c_in c) = false ->
+  c_viewonly c = false -> 0 <= p_lastx (c_ptr c) -> timer_ok (s_now s) c ->
+  0 <= s_now s -> 0 <= g_deferptr (s_cfg s) -> g_deferptr (s_cfg s) + 2 <= t ->
+  snd (run ext_cut s [OProcess; OTick t; OProcess])
+  = [EvPtr (c_id c) (p_lastbtn (c_ptr c)) (p_lastx (c_ptr c)) (p_lasty (c_ptr c))].
+Proof. exact defer_eventually_run. Qed.
 
 (* whole session, the code as it is: press at (84,77), drag to (72,74), release at (31,3) *)
 Example C06_ptr_coalescing_nonvacuous :
